@@ -48,11 +48,22 @@ def load_contracts():
     return engine.CONTRACTS
 
 
+def _stubs():
+    """distance3d.visualization needs open3d (libusb is missing in this sandbox); the hydroelastic package imports one class from it"""
+    import types
+
+    class RigidBodyTetrahedralMesh:
+        def __init__(self, *a, **k):
+            pass
+    m = types.SimpleNamespace(RigidBodyTetrahedralMesh=RigidBodyTetrahedralMesh, Mesh=RigidBodyTetrahedralMesh, Ellipse=RigidBodyTetrahedralMesh)
+    return {"distance3d.visualization": m}
+
+
 def _explore_worker(cname):
     try:
         signal.signal(signal.SIGINT, signal.SIG_IGN)
         c = engine.CONTRACTS[cname]
-        repo = Repo(loop_contracts=c.loops)
+        repo = Repo(loop_contracts=c.loops, stubs=_stubs())
         t0 = time.time()
         res = engine.explore(c, repo)
         recs = engine.serialise(c, res) if res["status"] == "ok" else []
